@@ -15,6 +15,11 @@ RULE = ("project(loads(dumps(d, options))) == project(loads(dumps(d))) up to the
         "separate_complex_types, decided by spec/TraceOptions.tla; distinct = (document, option set)")
 
 
+def hash_of(s):
+    import zlib
+    return zlib.crc32(s.encode())
+
+
 def run(tier):
     ck = common.Check("C06", tier, "model_checking", RULE)
     quick = tier == "quick"
@@ -35,12 +40,15 @@ def run(tier):
         use = cover if (quick or is_corpus) else sets
         if tid.startswith("slot:"):
             use = cover[:8] if quick else cover
+        if tid.startswith("slotc:"):
+            sct = [o for o in cover if o["separate_complex_types"] and o["nl"] != "SP"]
+            use = [sct[hash_of(tid) % len(sct)]] + ([] if quick else sct[:6])
         for oi, o in enumerate(use):
             itn = tracecheck.Interner()
             rec = {"tid": "%s|%d" % (tid, oi), "what": "options", "opts": o, "dflt": itn.value(project.project(base))}
             ck.count()
             try:
-                out = impl.PrettyPrinter(**optrun.kwargs(o)).pprint(copy.deepcopy(d))
+                out = impl.fresh_dumps(copy.deepcopy(d), **optrun.kwargs(o))
                 rec["opt"] = itn.value(project.project(loads(out)))
                 rec["accepted"] = True
             except Exception as ex:  # noqa: BLE001
